@@ -15,7 +15,8 @@ from chython.periodictable import Element, QueryElement, AnyElement, AnyMetal, L
 ID = 'C09'
 RULE = ('(query, molecule) pairs: SMARTS of the built-in rule tables and of the repository tests, queries cut from corpus / '
         'special molecules through the query API with random primitive flags (neighbours, hybridisation, heteroatoms, H, ring '
-        'sizes, isotope, ring-bond marks, element lists, any-atom, any-metal), against the source molecule and other molecules; '
+        'sizes, isotope, ring-bond marks, element lists, any-atom, any-metal), against the source molecule and other molecules, whole-ring queries on 15 chelates closed through coordinate bonds in four '
+        'numberings each; '
         'bit-layout boundaries: every element 1-118, charges -4..+4, isotope offsets, 0-14 neighbours/heteroatoms, ring sizes '
         '3-70, hypervalent centres; both automorphism-filter settings and random scopes; oracle: set equality of mappings '
         'between get_mapping(mol) [compiled path under pyxsan] and get_mapping(mol, _cython=False), plus sanitizer silence; '
@@ -24,11 +25,11 @@ ASSUMPTIONS = ['CachedMethods compatibility shim',
                'the compiled matcher is the .pyx source executed by pyxsan (source semantics, not a compiled binary)',
                'molecules are labelled (calc_labels) and have defined hydrogen counts unless a case says otherwise']
 CONFIG = {
-    'quick': {'shards': 16, 'budget_s': 200, 'n_mols': 140, 'n_cut': 6, 'n_table_pairs': 2500,
+    'quick': {'shards': 16, 'budget_s': 200, 'n_mols': 900, 'n_cut': 8, 'n_table_pairs': 20000,
               'floors': {'evaluations': 3000, 'distinct_nontrivial': 500, 'pairs.compared': 3000, 'pairs.with-matches': 600,
                          'layout.elements': 118, 'layout.ring-sizes': 40, 'pyxsan.loads': 200000,
                          'queries.rings-with-coordinate-bonds': 120}},
-    'thorough': {'shards': 16, 'budget_s': 2400, 'n_mols': 2500, 'n_cut': 10, 'n_table_pairs': 60000,
+    'thorough': {'shards': 16, 'budget_s': 2400, 'n_mols': 4200, 'n_cut': 30, 'n_table_pairs': 300000,
                  'floors': {'evaluations': 60000, 'distinct_nontrivial': 8000, 'pairs.compared': 60000,
                             'pairs.with-matches': 10000, 'layout.elements': 118, 'layout.ring-sizes': 60,
                             'pyxsan.loads': 5000000, 'queries.rings-with-coordinate-bonds': 120}},
